@@ -43,6 +43,14 @@ PyVerdict(P, s) ==
              o == IF st.res.k = "E" THEN "err" ELSE "ok"
          IN IF st.res.k = "E" /\ st.res.e # "ValueError" THEN "bad"           \* bad arguments are a ValueError
             ELSE LeafVerdictOf(P, [spec |-> spec, o |-> o, res |-> st.res])
+  \* the static constructors Dual.vars_from / Dual2.vars_from: what try_new_from builds (bad arguments are a ValueError)
+  ELSE IF name = "vars_from" THEN
+         IF ~(a.k \in {"D1", "D2"}) \/ Wrapped(a) THEN "skip"
+         ELSE LET spec == [t |-> IF a.k = "D1" THEN "D1from" ELSE "D2from", re |-> ins.re, vars |-> ins.vars, d |-> ins.d, from |-> ins.a]
+                          @@ (IF Has(ins, "d2half") THEN [d2half |-> ins.d2half] ELSE <<>>)
+                  o == IF st.res.k = "E" THEN "err" ELSE "ok"
+              IN IF st.res.k = "E" /\ st.res.e # "ValueError" THEN "bad"
+                 ELSE LeafVerdictOf(P, [spec |-> spec, o |-> o, res |-> st.res])
   ELSE IF name = "adorder" THEN V(IF ins.order \in 0..2 THEN st.res.k = "O" /\ st.res.o = ins.order ELSE Raises(st, "ValueError"))
   ELSE IF ~(a.k \in {"D1", "D2"}) \/ Wrapped(a) THEN "skip"
   ELSE IF name \in DOMAIN PyCore THEN
@@ -58,9 +66,14 @@ PyVerdict(P, s) ==
          ELSE IF PyRefused(a, b) THEN V(Raises(st, "TypeError"))
          ELSE CmpVerdict(PyCmp[name], a, b, st)
   ELSE IF name \in DOMAIN PyUn THEN UnVerdict(PyUn[name], a, FZ, st)
+  \* read-backs: the manifold gradient is the core one; ptr_eq tells whether two numbers share their variable list
+  ELSE IF name = "grad1_manifold" THEN ReadVerdict("manifold", ins, a, st)
+  ELSE IF name = "ptr_eq" THEN (IF ~IsNum(b) \/ b.k # a.k THEN "skip" ELSE VarsVerdict("ptr_eq", a, b, st))
   ELSE IF ~(st.o = "ok") THEN "bad"
   ELSE LET y == st.res IN
        CASE name = "__float__" -> V(y.k = "F" /\ y.re = a.re)
+         [] name = "real" -> V(y.k = "F" /\ y.re = a.re)                      \* the getters show what is stored
+         [] name = "vars" -> V(y.k = "S" /\ y.s = a.vars)
          [] name = "to_dual2" -> V(IsNum(y) /\ ShapeOK(y) /\ Raised(a, y))
          [] name = "to_dual" -> V(IsNum(y) /\ ShapeOK(y) /\ Lowered(a, y))
          \* the object pickle creates first, then the one it ends with, then the JSON text read back: all x itself
